@@ -14,7 +14,7 @@ Trace == ndJsonDeserialize(IOEnv.TRACE)
 Prop == IOEnv.PROP
 
 Calls == {"a1", "a2", "b1", "b2", "c1", "c2", "d1"}
-LCalls == {"l1", "l2"}
+LCalls == {"l1", "l2", "l3"}
 Src(c) == IF c \in {"b1", "b2", "d1"} THEN "B" ELSE "A"
 Dst(c) == IF c \in {"a1", "a2"} THEN "B" ELSE IF c \in {"b1", "b2"} THEN "A" ELSE "L"
 LPeer(l) == "L"
